@@ -105,7 +105,7 @@ def _exh_cases(n, lo, hi, M):
             yield {
                 "pat": pat,
                 "p": p,
-                "kind": tok.KINDS[(v + k) % 3],
+                "kind": tok.KINDS[(v + k) % len(tok.KINDS)],
                 "deliv": tok.DELIVS[(v // 3 + k) % 3],
             }
 
